@@ -16,6 +16,9 @@ CHECKS = {
  'C03': dict(cat='proof', tech='deductive: byte-exact spec-layout postconditions on the real write_* primitives, _ProtocolHandler.encode_message/_write_header and every request message send_body/_write_query_params (symbolic field values and byte strings of any length, option presence enumerated per protocol version), rejection obligations; bounded parse-back of real frames by an independent strict spec parser',
              text='For each of the 8 protocol versions and every presence combination of the options, the body the real encoder writes equals the layout transcribed from the native protocol specifications for all field values (consistency, page size, timestamps, ids, query text, paging state, value bytes of any length); header length/flags/stream/opcode are a postcondition of encode_message for any body. The number of bound values / batch entries is unrolled (0..2). The literal parse-back by an independent parser is a bounded stand-in over all option combinations with fixed values.',
              ref='DESIGN.md §4 C03'),
+ 'C04': dict(cat='proof', tech='deductive: decoded-message == contents postconditions on the real read_* primitives, _ProtocolHandler.decode_message (every flag subset per version), ErrorMessage.recv_body + every recv_error_info/to_exception, ResultMessage.recv_body (five kinds, metadata flag combinations, read_type), EventMessage, READY/AUTHENTICATE/AUTH_CHALLENGE/AUTH_SUCCESS/SUPPORTED, on bodies built from the specification layout of symbolic contents; bounded decode of frames from an independent spec encoder',
+             text='For each protocol version the body is the specification layout of symbolic numbers, byte strings and texts of any length (plus a fixed-length pass that keeps mis-parses decidable) and the real decoder must return exactly those contents and consume exactly the body. List/map/column/row counts are unrolled (0..2), type options cover all primitive codes and one level of nesting. AUTH_SUCCESS token handling is a recorded known finding; the order of the DSE continuous-paging page number relative to NO_METADATA/new_metadata_id is a stated residual.',
+             ref='DESIGN.md §4 C04'),
  'C31': dict(cat='proof', tech='deductive: lock-invariant proof of MonotonicTimestampGenerator.__call__ for arbitrary clock and history + frame scan',
              text='Lock invariant (all returned timestamps <= last) proved preserved by __call__ for an arbitrary prior state and clock reading; '
                   'strict monotonicity across threads follows for lock-respecting schedules; unprotected reads/writes of `last` fail an obligation.',
